@@ -138,7 +138,8 @@ def amplifiers():
         ("find_opt_chain", "local n=math.min(%d,28) local s=string.rep('a',n) emit(s:find(string.rep('a?',n)..string.rep('a',n)..'b'))"),
         ("find_balanced", "local s=string.rep('(',math.min(%d,300000)) emit(s:find('%%b()'))"),
         ("find_frontier", "local s=string.rep('a',math.min(%d,300000)) emit(s:find('%%f[b]'))"),
-        ("find_backref", "local s=string.rep('a',math.min(%d,3000)) emit(s:find('(a*)%%1b'))"),
+        ("find_backref", "local s=string.rep('a',math.min(%d,300000)) emit(s:find('(a*)%%1b'))"),
+        ("find_backref_anchored", "local s=string.rep('a',math.min(%d,2000000)) emit(s:find('^(a*)%%1c'))"),
         ("gsub_anchored_fail", "local s=string.rep('ab',math.min(%d,200000)) emit((s:gsub('^(a.-)c','')))"),
         ("find_init_loop", "local s=string.rep('a',math.min(%d,300000)) emit(s:find('a-b',1))"),
         # library loops driven by a size the program chooses
